@@ -66,6 +66,48 @@ func memberReceiverRule(r *Run, rule string) {
 		if recv, _, ok := reflectValueCall(v, "Elem"); ok {
 			return sources(recv, seen, d+1)
 		}
+		// a helper of the module that hands back its one reflect.Value parameter, dereferenced at most
+		// (func indirect(rv reflect.Value) reflect.Value { if rv.Kind() == reflect.Ptr { return rv.Elem() }; return rv })
+		if c, ok := v.(*ssa.Call); ok {
+			if cal := c.Call.StaticCallee(); cal != nil && inModule(cal) && len(cal.Params) == 1 && len(c.Call.Args) == 1 && len(cal.Blocks) > 0 && cal.Signature.Results().Len() == 1 {
+				var same func(x ssa.Value, dd int) bool
+				same = func(x ssa.Value, dd int) bool {
+					if dd > 6 {
+						return false
+					}
+					if x == ssa.Value(cal.Params[0]) {
+						return true
+					}
+					if recv, _, ok := reflectValueCall(x, "Elem"); ok {
+						return same(recv, dd+1)
+					}
+					if args, ok := reflectFunc(x, "Indirect"); ok && len(args) == 1 {
+						return same(args[0], dd+1)
+					}
+					if phi, ok := x.(*ssa.Phi); ok {
+						for _, e := range phi.Edges {
+							if !same(e, dd+1) {
+								return false
+							}
+						}
+						return true
+					}
+					return false
+				}
+				hands, nret := true, 0
+				for _, b := range cal.Blocks {
+					if ret, ok := b.Instrs[len(b.Instrs)-1].(*ssa.Return); ok {
+						nret++
+						if len(ret.Results) != 1 || !same(ret.Results[0], 0) {
+							hands = false
+						}
+					}
+				}
+				if hands && nret > 0 {
+					return sources(c.Call.Args[0], seen, d+1)
+				}
+			}
+		}
 		if phi, ok := v.(*ssa.Phi); ok {
 			var out []ssa.Value
 			for _, e := range phi.Edges {
